@@ -128,16 +128,22 @@ def r2_r4(ctx, facts):
     n = 0
     Z = ("const", 0)
     last_err = {l for l in range(len(b.locals)) if b.local_name(l) == "last_error"}
-    exits = [(bb, df.state_before_stmt(bb, j) or {}, b.stmt_span(s), ("stmt", s)) for bb, j, s in rets] + \
-            [(c.bb, df.state_in.get(c.bb) or {}, c.span, ("call", c)) for c in rcalls]
-    for bb, st, span, how in sorted(exits, key=lambda x: x[0]):
+    djx = dj_of(b, facts)
+    exits = [(bb, djx.states_before_stmt(bb, j) or [{}], b.stmt_span(s), ("stmt", s)) for bb, j, s in rets] + \
+            [(c.bb, [dict(fs) for fs in djx.states.get(c.bb, ())] or [{}], c.span, ("call", c)) for c in rcalls]
+
+    def is_definitive(st):
+        return any(k == ("call", c.bb) and in_set(v, {0}) for c in cbi for k, v in st.items())
+    for bb, sts, span, how in sorted(exits, key=lambda x: x[0]):
         n += 1
-        definitive = any(k == ("call", c.bb) and in_set(v, {0}) for c in cbi for k, v in st.items())
-        empty = any(k == ("call", e.bb) and in_set(v, {1}) for e in emp for k, v in st.items())
-        nomore = cmp_truth(st, "Eq", e_ctr, Z) == 1 or cmp_truth(st, "Gt", e_ctr, Z) == 0
-        if definitive:
+        # per disjunctive state: either the result at hand was definitive, or this is the give-up exit
+        rest = [st for st in sts if not is_definitive(st)]
+        if not rest:
             r4.ok("return-definitive-result#%d" % n, "returned where can_be_ignored(&r) was false", span)
             continue
+        empty = all(any(k == ("call", e.bb) and in_set(v, {1}) for e in emp for k, v in st.items()) for st in rest)
+        nomore = all(cmp_truth(st, "Eq", e_ctr, Z) == 1 or cmp_truth(st, "Gt", e_ctr, Z) == 0 or cmp_truth(st, "Ne", e_ctr, Z) == 0 for st in rest)
+        st = rest[0]
         # otherwise this must be the give-up exit: nothing running, nothing left to start, and what is returned is the
         # remembered last error (or the empty-plan error)
         if how[0] == "stmt":
@@ -176,7 +182,7 @@ def r2_r4(ctx, facts):
     bad = []
     for c in cbi:
         for sw, tt, ff in truth_edges(b, df, ("call", c.bb)):
-            reach = b.reachable_from(tt, removed_nodes=store_bbs) if tt not in store_bbs else set()
+            reach = djx.feasible_reach_edge(sw, tt, removed_nodes=store_bbs) if tt not in store_bbs else set()
             if reach & (set(b.exits) | {x.bb for x in cbi}):
                 bad.append(str(b.term_span(sw)))
     r4.instance("every-ignorable-result-overwrites-last_error", bool(store_bbs) and not bad,
